@@ -277,7 +277,7 @@ func (a *Asm) blockAfter(label string) []ALine {
 		if l.IsMark {
 			continue
 		}
-		if l.Label != "" || l.BlankBefore {
+		if l.Label != "" || l.BlankBefore || l.Op == ".align" {
 			break
 		}
 		out = append(out, l)
